@@ -378,10 +378,42 @@ def predSlice (c s e : JV) : Pred :=
     | .resource _ => exactCls "resource"
   | _, _, _ => noPanic
 
+/-- `@bytecolor/1`: input = a byte_colors array whose values are among the four the driver knows,
+    argument = a byte; the model picks the last entry with a covering (clamped) range -/
+def colourSet (v : JV) : Option String :=
+  match v with
+  | .str bs =>
+    let s := String.ofList (bs.map Char.ofNat)
+    if s == "red" then some "s:1b5b33316d" else if s == "bgbrightred" then some "s:1b5b3130316d"
+    else if s == "bold" then some "s:1b5b316d" else if s == "" then some "s:-" else none
+  | _ => none
+
+def predByteColor (c b : JV) : Pred :=
+  match c, b with
+  | .arr es, .int bi =>
+    let parsed : Option (List (List (Int × Int) × String)) := es.mapM fun e =>
+      match e with
+      | .obj kv =>
+        match lookup kv "ranges", (lookup kv "value").bind colourSet with
+        | some (.arr rs), some set =>
+          (rs.mapM fun (r : JV) => match r with
+            | JV.arr [JV.int lo, JV.int hi] => some (lo, hi)
+            | _ => none).map fun l => (l, set)
+        | _, _ => none
+      | _ => none
+    match parsed with
+    | some ents =>
+      if bi < 0 || bi > 255 then noPanic else
+      match byteColorEntry (ents.map (·.1)) bi.toNat with
+      | some k => { classes := ["ok"], value := some ((ents.getD k ([], "?")).2) }
+      | none => { classes := ["ok"], value := some "s:-" }
+    | none => noPanic
+  | _, _ => noPanic
+
 def modelled : List String :=
   ["bnot/0", "bsl/2", "bsr/2", "band/2", "bor/2", "bxor/2", "to_radix/1", "from_radix/1", "_tobits/1",
    "tobits/1", "tobytes/1", "_to_toml/1", "to_toml/1", "to_xml/1", "_to_json/1", "tojson/1", "_to_yaml/1",
-   "to_yaml/1", "intdiv/2", "@index/1", "@slice/2"]
+   "to_yaml/1", "intdiv/2", "@index/1", "@slice/2", "@bytecolor/1"]
 
 def predict (fn : String) (toks : List String) (vs : List JV) : Option Pred :=
   match fn, vs with
@@ -406,6 +438,7 @@ def predict (fn : String) (toks : List String) (vs : List JV) : Option Pred :=
   | "to_yaml/1", [_, o] => some (predToYAML o)
   | "@index/1", [c, i] => some (predIndex (toks.headD "") c i)
   | "@slice/2", [c, s, e] => some (predSlice c s e)
+  | "@bytecolor/1", [c, b] => some (predByteColor c b)
   | _, _ => none
 
 /-! ### observation classes -/
